@@ -5,6 +5,7 @@ package chain
 // of the repository's own manager_test.go (TestnetZen, findBlockNonce).
 //
 // Scenarios:
+//   deep-ancestors   chains of 1, 2, 3 and 5 pooled ancestors: all of them are in the set, in order
 //   parent-order     a pooled parent that itself depends on another pooled parent:
 //                    V2TransactionSet must return parents before children whatever
 //                    the order of the inputs that reference them
@@ -181,6 +182,39 @@ func gocvC13Scenarios(t *testing.T) (cases, failures int) {
 			}
 			if len(set) != 3 || set[2].ID() != T.ID() {
 				fails = append(fails, fmt.Sprintf("expected the two parents followed by the transaction, got %d transactions", len(set)))
+			}
+			if s := gocvC13OrderOK(set); s != "" {
+				fails = append(fails, s)
+			}
+			if _, err := e.cm.AddV2PoolTransactions(basis, set); err != nil {
+				fails = append(fails, "the assembled set is rejected by the pool: "+err.Error())
+			}
+			return fails
+		})
+	}
+
+	// deep-ancestors: a chain of pooled ancestors t1 <- t2 <- ... <- tn <- txn; the set must hold all of them
+	for _, depth := range []int{1, 2, 3, 5} {
+		guard(fmt.Sprintf("deep-ancestors depth=%d", depth), func() []string {
+			e := gocvC13Setup(t, 1)
+			var chain []types.V2Transaction
+			parent := e.gift[0]
+			for i := 0; i < depth; i++ {
+				txn := e.spend([]types.SiacoinElement{parent}, 1)
+				chain = append(chain, txn)
+				parent = txn.EphemeralSiacoinOutput(0)
+			}
+			if _, err := e.cm.AddV2PoolTransactions(e.cm.Tip(), chain); err != nil {
+				t.Fatal(err)
+			}
+			T := e.spend([]types.SiacoinElement{parent}, 1)
+			basis, set, err := e.cm.V2TransactionSet(e.cm.Tip(), T)
+			if err != nil {
+				return []string{"V2TransactionSet: " + err.Error()}
+			}
+			var fails []string
+			if len(set) != depth+1 {
+				fails = append(fails, fmt.Sprintf("set has %d transactions, want the %d pooled ancestors and the transaction", len(set), depth))
 			}
 			if s := gocvC13OrderOK(set); s != "" {
 				fails = append(fails, s)
